@@ -477,6 +477,12 @@ func init() {
 				for _, h := range c04Long {
 					tasks = append(tasks, crashTask{Cfg: cfg, Ops: h, Full: full, Nested: c.Tier == "thorough"})
 				}
+				// records larger than a 32 KiB journal block (torn inside and between blocks), with a
+				// crash inside the recovery that replays them
+				if cfg == "flushy/bytewise" || cfg == "default/bytewise" {
+					tasks = append(tasks, crashTask{Cfg: cfg, Ops: []string{"Sput:b", "SputX:a", "Sput:c"}, Full: full, Nested: true},
+						crashTask{Cfg: cfg, Ops: []string{"SputX:a", "re", "SputX:b", "put:c"}, Full: full, Nested: c.Tier == "thorough"})
+				}
 				nestMax := 2 // crash again inside recovery for the short histories
 				if c.Tier == "thorough" {
 					nestMax = 3
